@@ -442,6 +442,31 @@ def run(ck: core.Check):
         ck.case(json.dumps(d, sort_keys=True), nontrivial=True, sample=None)
     fold([case_worker([(rel, d, open_ids) for rel, d in corp])], "corpus_fixture_files")
 
+    # 1b. the Lean witnesses (non-vacuity examples and negative witnesses of Props/C05.lean),
+    #     served by the driver, replayed on the real code: the model's verdict (`lossless`) must
+    #     be the real code's verdict (oracle C), and a failing witness must be a listed finding
+    expected = {"docDefaultFirst": "c", "docExitsPermuted": "d", "docTypedField": "a", "docGroupQuery": "b"}
+    wit = core.Driver().results([{"op": "doc.witnesses"}])[0]
+    if isinstance(wit, dict):
+        ck.tie_break("driver does not serve the Lean witnesses", wit)
+        wit = []
+    for w in wit:
+        fails, _ = oracle(w["doc"])
+        ck.case("witness:" + w["name"], nontrivial=True)
+        ck.count("lean_witnesses_replayed")
+        if bool(fails) == bool(w["lossless"]):
+            ck.tie_break("Lean witness: the kernel's verdict and the real code's differ", {"witness": w["name"], "lean_lossless": w["lossless"], "real_failures": fails[:3]})
+        if fails:
+            seen = classify(w["doc"], fails, set("abcd"))
+            k = expected.get(w["name"])
+            if not seen or k not in seen:
+                ck.violation(fails[0]["what"], {"label": "lean witness " + w["name"], "failures": fails[:4], "input": w["doc"]})
+            elif k in open_ids:
+                ck.known(f"F-C05-{k}", FINDING_TEXT[k], {"label": "lean witness " + w["name"]})
+    for name, k in expected.items():
+        if k not in open_ids and any(w["name"] == name and not w["lossless"] for w in wit):
+            ck.notes.append(f"F-C05-{k} is no longer open but the Lean model still fails on {name}: update the model")
+
     # 2. known-finding stream
     ks = known_stream(open_ids)
     fold([case_worker(ks)] if ks else [], "known_finding_stream")
@@ -450,7 +475,7 @@ def run(ck: core.Check):
             ck.notes.append(f"open finding F-C05-{k} no longer reproduces on the known-finding stream")
 
     # 3. main stream
-    n = 3000 if quick else 40000
+    n = 12000 if quick else 150000
     items = []
     for i in range(n):
         seed = ck.rng.getrandbits(48)
@@ -464,7 +489,7 @@ def run(ck: core.Check):
 
     # 4. quirk stream (tie only): near-valid documents outside the property's domain
     qitems = []
-    for i in range(1500 if quick else 20000):
+    for i in range(6000 if quick else 60000):
         seed = ck.rng.getrandbits(48)
         g = G.Gen(random.Random(seed), avoid=avoid, size=ck.rng.choice([1, 2]))
         d0 = g.document(force_flow=True)
